@@ -117,4 +117,12 @@ PROPS = {
         "trusted": COMMON_TRUST + CRYPTO_TRUST + ["harness/src/refdec.rs — the independent reader (primitive crates only) is itself unverified test code"],
         "text": "writer output tokenises into the expected chunk sequence and the strict decoder returns the entries written (proved); every archive/part file produced by the C01/C04/C10/C11 families is decoded by an independent primitive-crate reader",
     },
+    "C20": {
+        "lean": ["PnaVerif.Props.Consts", "PnaVerif.Props.C20"],
+        "families": ["canary", "extract-fs"],
+        "cli": True,
+        "ops": {"extract-fs": ["extract"], "canary": []},
+        "trusted": COMMON_TRUST + ["the abstract file system (Model/Fs.lean) is cross-checked against the Linux VFS by extract-fs, not verified", "the per-command effect plans are hand-transcribed from the sources"],
+        "text": "guarded-plan preservation theorems over the abstract FS; canaries of five kinds at every output path of create / create --split / split / concat / extract / stdio -x",
+    },
 }
